@@ -58,6 +58,33 @@ def fold_const_switches(body):
 
 
 # ---------------------------------------------------------------------------------------------
+_BODIES = None      # the body list being rewritten (set by the passes): promoted constants of a spliced body are copied over
+_PMAP = None
+
+
+def _promoted_mapper(caller, callee):
+    """Promoted constants belong to the body that mentions them: a spliced copy needs its own copies, numbered in the caller."""
+    pm = {}
+
+    def pmap(i):
+        if i in pm:
+            return pm[i]
+        if _BODIES is None or caller["def"] == callee["def"]:
+            return i
+        src = [b for b in _BODIES if b["def"] == callee["def"] and b.get("promoted") == i]
+        if len(src) != 1:
+            return i
+        new = 1 + max([b["promoted"] for b in _BODIES if b["def"] == caller["def"] and b.get("promoted") is not None], default=-1)
+        cp = copy.deepcopy(src[0])
+        cp["def"] = caller["def"]
+        cp["promoted"] = new
+        cp["promoted_copy_of"] = [callee["def"], i]
+        _BODIES.append(cp)
+        pm[i] = new
+        return new
+    return pmap
+
+
 def _renumber(x, lmap, bmap):
     """Deep copy of a statement / terminator with locals and block ids renumbered."""
     if isinstance(x, list):
@@ -67,7 +94,9 @@ def _renumber(x, lmap, bmap):
     out = {}
     is_place = "l" in x and "p" in x and isinstance(x.get("l"), int)
     for k, v in x.items():
-        if is_place and k == "l":
+        if k == "promoted" and x.get("k") == "const" and isinstance(v, int) and _PMAP is not None:
+            out[k] = _PMAP(v)
+        elif is_place and k == "l":
             out[k] = lmap(v)
         elif is_place and k == "p":
             pr = []
@@ -116,6 +145,8 @@ def splice(caller, callee, arg_rvalues, dest, cont, span):
     def bmap(b):
         return base_b + b
 
+    global _PMAP
+    _PMAP = _promoted_mapper(caller, callee)
     for l in callee["locals"]:
         caller["locals"].append(copy.deepcopy(l))
     binds = []
@@ -150,6 +181,7 @@ def splice(caller, callee, arg_rvalues, dest, cont, span):
         if p:
             caller.setdefault("debug", []).append({"name": d["name"], "place": _renumber(p, lmap, bmap)})
     caller.setdefault("inlined", []).append(callee["def"])
+    _PMAP = None
     return base_b, binds
 
 
@@ -182,6 +214,8 @@ def inline_helpers(bodies, known):
     """bodies: raw body dicts of one crate/config.  Returns {helper def: [callers]}."""
     if known is None:
         return {}
+    global _BODIES
+    _BODIES = bodies
     by_def = {}
     for b in bodies:
         if b.get("promoted") is None and b["kind"] in ("fn", "method"):
